@@ -54,7 +54,8 @@ def cases(draw, tier):
             "reader": draw(st.sampled_from(["load_table", "parse_table",
                                             "from_hdf5"])),
             "generated_by": draw(gen._H5TEXT1),
-            "date": date_to_json(draw(DATES))}
+            "date": date_to_json(draw(DATES)),
+            "rewrite": draw(st.sampled_from([False, False, True]))}
 
 
 def strategy(tier):
@@ -143,6 +144,26 @@ def check(case, rec):
         got_gmd = {a: dict(r.group_metadata(a) or {})
                    for a in ("observation", "sample")}
         got_date, got_gen = r.create_date, r.generated_by
+        if case.get("rewrite"):
+            # the same path is written again with different content and
+            # loaded again: what is read must be what was written last
+            rec.cls("rewrite-same-path")
+            t2 = t.copy()
+            t2.update_ids({i: i + "'" for i in src["obs"]},
+                          axis="observation", inplace=True)
+            t2.update_ids({i: "2-" + i for i in src["samp"]}, axis="sample",
+                          inplace=True)
+            t2.transform(lambda v, i, md: v / 2, inplace=True)
+            src2 = observe.snapshot(t2)
+            os.remove(path)
+            write(t2, path, case)
+            got2 = observe.snapshot(read(path, case["reader"]))
+            for k in ("obs", "samp", "rows"):
+                if got2[k] != src2[k]:
+                    raise Violation("stale-read-after-rewrite", "after "
+                                    "re-writing the path, %s reads %r, "
+                                    "written %r (first content %r)" %
+                                    (k, got2[k], src2[k], src[k]))
 
     def bad(sub, msg):
         raise Violation(sub, msg)
